@@ -18,9 +18,22 @@ Port == << "p1", "p2" >>
 TailOf(k) == [i \in 1..k |-> <<"t", i>>]
 
 Kinds == {"domain", "v4", "v6"}
-Addrs == {[kind |-> "domain", n |-> n] : n \in NameLens} \cup {[kind |-> "v4", n |-> 4], [kind |-> "v6", n |-> 16]}
+(* `shape` says what the bytes are made of; the encodings must not care, which is the point:
+     domain  "ascii" | "utf8x2" / "utf8x3" (well-formed two- / three-byte characters: FEWER characters than bytes) |
+             "latin1" (bytes that are no well-formed UTF-8; they can only enter through the SOCKS5 doors)
+     v6      "generic" | "unspecified" (::) | "loopback" (::1) | "v4compat" (::a.b.c.d) | "v4mapped" (::ffff:a.b.c.d) |
+             "linklocal" | "multicast"           v4   "generic" | "zero" | "broadcast" | "loopback"
+   n is always the number of BYTES of the host field.                                                              *)
+DomainShapes == {"ascii", "utf8x2", "utf8x3", "latin1"}
+V6Shapes == {"generic", "unspecified", "loopback", "v4compat", "v4mapped", "linklocal", "multicast"}
+V4Shapes == {"generic", "zero", "broadcast", "loopback"}
+Addrs == {[kind |-> "domain", n |-> n, shape |-> sh] : n \in NameLens, sh \in DomainShapes}
+         \cup {[kind |-> "v4", n |-> 4, shape |-> sh] : sh \in V4Shapes}
+         \cup {[kind |-> "v6", n |-> 16, shape |-> sh] : sh \in V6Shapes}
+\* a name of n bytes made of k-byte characters exists only when k divides n (the generator pads with one ASCII byte otherwise)
 
-Admit(a) == a.kind # "domain" \/ (a.n >= 1 /\ a.n <= 255) \/ "NoDoorCheck" \in Dev
+\* a name is text: bytes that are no well-formed UTF-8 are no name (the VMess-style receiver refuses them, so the door must)
+Admit(a) == a.kind # "domain" \/ (a.n >= 1 /\ a.n <= 255 /\ a.shape # "latin1") \/ "NoDoorCheck" \in Dev
 
 TypeByte(a) == <<"type", a.kind>>
 LenByte(a) == <<"len", a.n % 256>>              \* what `len as u8` puts on the wire
@@ -55,5 +68,5 @@ Step == /\ outcome = "pending"
 Spec == Init /\ [][Step]_<<style, a, tail, outcome>>
 
 ExactOrRefused == outcome # "altered"
-RefusedOnlyIfUnrepresentable == outcome = "refused" => (a.kind = "domain" /\ (a.n = 0 \/ a.n > 255))
+RefusedOnlyIfUnrepresentable == outcome = "refused" => (a.kind = "domain" /\ (a.n = 0 \/ a.n > 255 \/ a.shape = "latin1"))
 =============================================================================
